@@ -8,6 +8,7 @@ import (
 	"path/filepath"
 	"sort"
 	"strings"
+	"sync/atomic"
 	"testing"
 
 	metadb "github.com/WuKongIM/WuKongIM/pkg/db/meta"
@@ -25,6 +26,24 @@ const (
 
 var verifC13Owned = []uint16{3, 7}
 
+// verifC13SigDeleteSubscribe is the signature of the recorded finding "DeleteChannel
+// does not clear the commit overlay's subscriber rows" (see DESIGN §1.5): while it
+// is listed in known_findings.json the partition generator never puts a
+// DeleteChannel and a later subscriber mutation of the same row into one batch;
+// TestVerifC13KnownDeleteThenSubscribe re-establishes it on every run.
+const verifC13SigDeleteSubscribe = "delete-channel-then-subscriber-mutation-in-one-batch:stale-subscriber-rows"
+
+// verifC13SigGCInBatch: GarbageCollectMigrationTasks plans and lists from the
+// committed DB, so inside one batch it is blind to migration-task commands that
+// precede it (and later creates are blind to its deletes). While listed, a GC
+// command never shares a batch with another migration-task command of its hash
+// slot; TestVerifC13KnownGCInBatch re-establishes it on every run.
+const verifC13SigGCInBatch = "migration-task-gc-in-one-batch:blind-to-earlier-commands-of-the-batch"
+
+type verifC13Fataler interface {
+	Fatalf(format string, args ...any)
+}
+
 // ---- a replica: one meta DB + one state machine -------------------------------------
 
 type verifC13Replica struct {
@@ -33,7 +52,7 @@ type verifC13Replica struct {
 	sm  *stateMachine
 }
 
-func verifC13Open(rt *rapid.T, dir string) *verifC13Replica {
+func verifC13Open(rt verifC13Fataler, dir string) *verifC13Replica {
 	db, err := metadb.Open(filepath.Join(dir, "db"))
 	if err != nil {
 		rt.Fatalf("VERIF-MACHINERY metadb.Open: %v", err)
@@ -46,7 +65,7 @@ func verifC13Open(rt *rapid.T, dir string) *verifC13Replica {
 	return &verifC13Replica{dir: dir, db: db, sm: sm.(*stateMachine)}
 }
 
-func (r *verifC13Replica) close(rt *rapid.T) {
+func (r *verifC13Replica) close(rt verifC13Fataler) {
 	if r.db != nil {
 		if err := r.db.Close(); err != nil {
 			rt.Fatalf("close meta db: %v", err)
@@ -57,14 +76,14 @@ func (r *verifC13Replica) close(rt *rapid.T) {
 
 // reopen simulates a process restart: the DB is closed and opened again and a new
 // state machine is built over it (all in-memory caches are gone).
-func (r *verifC13Replica) reopen(rt *rapid.T) {
+func (r *verifC13Replica) reopen(rt verifC13Fataler) {
 	r.close(rt)
 	n := verifC13Open(rt, r.dir)
 	r.db, r.sm = n.db, n.sm
 }
 
 // export returns the canonical bytes of every key of the given hash slots.
-func (r *verifC13Replica) export(rt *rapid.T, hashSlots []uint16) []byte {
+func (r *verifC13Replica) export(rt verifC13Fataler, hashSlots []uint16) []byte {
 	snap, err := r.db.ExportHashSlotSnapshot(context.Background(), hashSlots)
 	if err != nil {
 		rt.Fatalf("ExportHashSlotSnapshot(%v): %v", hashSlots, err)
@@ -72,7 +91,7 @@ func (r *verifC13Replica) export(rt *rapid.T, hashSlots []uint16) []byte {
 	return snap.Data
 }
 
-func (r *verifC13Replica) snapshot(rt *rapid.T) []byte {
+func (r *verifC13Replica) snapshot(rt verifC13Fataler) []byte {
 	snap, err := r.sm.Snapshot(context.Background())
 	if err != nil {
 		rt.Fatalf("Snapshot: %v", err)
@@ -80,7 +99,7 @@ func (r *verifC13Replica) snapshot(rt *rapid.T) []byte {
 	return snap.Data
 }
 
-func (r *verifC13Replica) applied(rt *rapid.T) uint64 {
+func (r *verifC13Replica) applied(rt verifC13Fataler) uint64 {
 	idx, err := r.sm.DurableAppliedIndex(context.Background())
 	if err != nil {
 		rt.Fatalf("DurableAppliedIndex: %v", err)
@@ -151,7 +170,9 @@ type verifC13Cmd struct {
 	class       string
 	hashSlot    uint16
 	data        []byte
-	conditional bool // result depends on the state the command meets (create-if-absent, counted, guarded, monotonic)
+	conditional bool   // result depends on the state the command meets (create-if-absent, counted, guarded, monotonic)
+	motif       bool   // part of a same-row motif
+	rowKey      string // hashSlot/channel/type for channel-row commands (deleteChannel, subscribers)
 }
 
 var (
@@ -238,9 +259,12 @@ func verifC13Event(t *rapid.T, channel string, typ int64) metadb.MessageEventApp
 
 var verifC13EventTypes = []string{metadb.EventTypeStreamOpen, metadb.EventTypeStreamDelta, metadb.EventTypeStreamDelta, metadb.EventTypeStreamClose, metadb.EventTypeStreamError, metadb.EventTypeStreamCancel, metadb.EventTypeStreamSnapshot, metadb.EventTypeStreamFinish}
 
-func verifC13TaskGuard(t *rapid.T) metadb.ChannelMigrationTaskGuard {
+func verifC13TaskGuard(t *rapid.T, key verifC13Key) metadb.ChannelMigrationTaskGuard {
+	if key.channel == "" {
+		key.channel, key.typ, key.task = verifC13Pick(t, "channel", verifC13Channels), verifC13Pick(t, "type", verifC13Types), verifC13Pick(t, "task", verifC13Tasks)
+	}
 	return metadb.ChannelMigrationTaskGuard{
-		ChannelID: verifC13Pick(t, "channel", verifC13Channels), ChannelType: verifC13Pick(t, "type", verifC13Types), TaskID: verifC13Pick(t, "task", verifC13Tasks),
+		ChannelID: key.channel, ChannelType: key.typ, TaskID: key.task,
 		ExpectedStatus: metadb.ChannelMigrationStatus(rapid.IntRange(1, 2).Draw(t, "expectedStatus")), ExpectedPhase: metadb.ChannelMigrationPhase(rapid.IntRange(1, 2).Draw(t, "expectedPhase")),
 		ExpectedOwnerNodeID: uint64(rapid.IntRange(0, 1).Draw(t, "expectedOwner")), ExpectedOwnerLeaseUntilMS: int64(100 * rapid.IntRange(0, 1).Draw(t, "expectedLease")),
 		ExpectedUpdatedAtMS: int64(rapid.IntRange(1, 2).Draw(t, "expectedUpdatedAt")),
@@ -255,15 +279,106 @@ var verifC13Classes = []string{
 	"bindPlugin", "unbindPlugin", "createMigrationTask", "createMigrationTask", "claimMigrationTask", "advanceMigrationTask", "abortMigration", "gcMigrationTasks",
 }
 
+// verifC13Key pins the row a generated command addresses (zero fields are drawn).
+type verifC13Key struct {
+	hashSlot uint16
+	channel  string
+	typ      int64
+	uid      string
+	task     string
+}
+
 func verifC13CmdGen() *rapid.Generator[verifC13Cmd] {
 	return rapid.Custom(func(t *rapid.T) verifC13Cmd {
-		c := verifC13Cmd{class: rapid.SampledFrom(verifC13Classes).Draw(t, "class"), hashSlot: verifC13Pick(t, "hashSlot", verifC13Owned)}
-		channel, typ := verifC13Pick(t, "channel", verifC13Channels), verifC13Pick(t, "type", verifC13Types)
+		return verifC13CmdOf(t, rapid.SampledFrom(verifC13Classes).Draw(t, "class"), verifC13Key{})
+	})
+}
+
+// verifC13Motifs are short command sequences aimed at one row, so that commands
+// that depend on each other land in the same apply batch (create after delete,
+// repeated counted mutations, racing monotonic upserts, duplicate creates).
+var verifC13Motifs = [][]string{
+	{"upsertChannel", "deleteChannel", "createChannel"},
+	{"upsertChannel", "deleteChannel", "addSubscribers"},
+	{"createChannel", "patchChannelFlags", "deleteChannel", "patchChannelFlags"},
+	{"addSubscribers", "addSubscribers", "removeSubscribers"},
+	{"addSubscribers", "removeSubscribers", "removeSubscribers", "addSubscribers"},
+	{"upsertRuntimeMeta", "upsertRuntimeMeta", "advanceRetention"},
+	{"upsertRuntimeMeta", "deleteRuntimeMeta", "createRuntimeMetaBatch", "upsertRuntimeMeta"},
+	{"createRuntimeMetaBatch", "createRuntimeMetaBatch", "advanceRetention"},
+	{"createUser", "createUser", "upsertUser", "createUser"},
+	{"createChannel", "createChannel"},
+	{"createMigrationTask", "createMigrationTask", "claimMigrationTask", "advanceMigrationTask"},
+	{"createMigrationTask", "abortMigration", "createMigrationTask", "gcMigrationTasks"},
+	{"appendEvent", "appendEvent", "appendEventsBatch", "appendEvent"},
+	{"upsertMemberships", "advanceReadSeq", "hideMembership", "activateMembership", "deleteMemberships"},
+	{"upsertCMDMemberships", "advanceCMDAcks", "tombstoneCMDMemberships", "advanceCMDAcks"},
+	{"bindPlugin", "unbindPlugin", "bindPlugin"},
+}
+
+// verifC13StepGen draws either one command or one motif on a pinned row.
+func verifC13StepGen() *rapid.Generator[[]verifC13Cmd] {
+	return rapid.Custom(func(t *rapid.T) []verifC13Cmd {
+		if rapid.IntRange(0, 9).Draw(t, "motif") < 7 {
+			return []verifC13Cmd{verifC13CmdGen().Draw(t, "cmd")}
+		}
+		key := verifC13Key{hashSlot: verifC13Pick(t, "hashSlot", verifC13Owned), channel: verifC13Pick(t, "channel", verifC13Channels), typ: verifC13Pick(t, "type", verifC13Types),
+			uid: verifC13Pick(t, "uid", verifC13Users), task: verifC13Pick(t, "task", verifC13Tasks)}
+		motif := verifC13Motifs[rapid.IntRange(0, len(verifC13Motifs)-1).Draw(t, "whichMotif")]
+		out := make([]verifC13Cmd, 0, len(motif))
+		for _, class := range motif {
+			c := verifC13CmdOf(t, class, key)
+			c.motif = true
+			out = append(out, c)
+		}
+		return out
+	})
+}
+
+func verifC13LogGen(minSteps, maxCmds int) *rapid.Generator[[]verifC13Cmd] {
+	return rapid.Custom(func(t *rapid.T) []verifC13Cmd {
+		var out []verifC13Cmd
+		for _, step := range rapid.SliceOfN(verifC13StepGen(), minSteps, maxCmds).Draw(t, "steps") {
+			if len(out)+len(step) > maxCmds {
+				break
+			}
+			out = append(out, step...)
+		}
+		return out
+	})
+}
+
+func verifC13CmdOf(t *rapid.T, class string, key verifC13Key) verifC13Cmd {
+	{
+		c := verifC13Cmd{class: class, hashSlot: key.hashSlot}
+		if c.hashSlot == 0 {
+			c.hashSlot = verifC13Pick(t, "hashSlot", verifC13Owned)
+		}
+		channel, typ := key.channel, key.typ
+		if channel == "" {
+			channel, typ = verifC13Pick(t, "channel", verifC13Channels), verifC13Pick(t, "type", verifC13Types)
+		}
+		pickUID := func() string {
+			if key.uid != "" {
+				return key.uid
+			}
+			return verifC13Pick(t, "uid", verifC13Users)
+		}
+		pinMeta := func(m metadb.ChannelRuntimeMeta) metadb.ChannelRuntimeMeta {
+			if key.channel != "" {
+				m.ChannelID, m.ChannelType = key.channel, key.typ
+			}
+			return m
+		}
+		switch c.class {
+		case "deleteChannel", "addSubscribers", "removeSubscribers":
+			c.rowKey = fmt.Sprintf("%d/%s/%d", c.hashSlot, channel, typ)
+		}
 		switch c.class {
 		case "noop":
 			c.data = EncodeNoopCommand()
 		case "upsertUser", "createUser":
-			u := metadb.User{UID: verifC13Pick(t, "uid", verifC13Users), Token: "tk" + fmt.Sprint(rapid.IntRange(0, 3).Draw(t, "token")), DeviceFlag: int64(rapid.IntRange(0, 2).Draw(t, "flag")), DeviceLevel: int64(rapid.IntRange(0, 1).Draw(t, "level"))}
+			u := metadb.User{UID: pickUID(), Token: "tk" + fmt.Sprint(rapid.IntRange(0, 3).Draw(t, "token")), DeviceFlag: int64(rapid.IntRange(0, 2).Draw(t, "flag")), DeviceLevel: int64(rapid.IntRange(0, 1).Draw(t, "level"))}
 			if c.class == "upsertUser" {
 				c.data = EncodeUpsertUserCommand(u)
 			} else {
@@ -284,7 +399,7 @@ func verifC13CmdGen() *rapid.Generator[verifC13Cmd] {
 		case "deleteChannel":
 			c.data = EncodeDeleteChannelCommand(channel, typ)
 		case "upsertRuntimeMeta":
-			c.data, c.conditional = EncodeUpsertChannelRuntimeMetaCommand(verifC13RuntimeMeta(t)), true
+			c.data, c.conditional = EncodeUpsertChannelRuntimeMetaCommand(pinMeta(verifC13RuntimeMeta(t))), true
 		case "deleteRuntimeMeta":
 			c.data = EncodeDeleteChannelRuntimeMetaCommand(channel, typ)
 		case "advanceRetention":
@@ -297,9 +412,13 @@ func verifC13CmdGen() *rapid.Generator[verifC13Cmd] {
 			seen := map[string]bool{}
 			for i := 0; i < n; i++ {
 				m := verifC13RuntimeMeta(t)
-				if key := fmt.Sprint(m.ChannelType, m.ChannelID); !seen[key] {
-					seen[key] = true
-					items = append(items, CreateChannelRuntimeMetaBatchItem{HashSlot: verifC13Pick(t, "itemHashSlot", verifC13Owned), Meta: m})
+				itemHashSlot := verifC13Pick(t, "itemHashSlot", verifC13Owned)
+				if i == 0 && key.channel != "" {
+					m, itemHashSlot = pinMeta(m), c.hashSlot
+				}
+				if id := fmt.Sprint(m.ChannelType, m.ChannelID); !seen[id] {
+					seen[id] = true
+					items = append(items, CreateChannelRuntimeMetaBatchItem{HashSlot: itemHashSlot, Meta: m})
 				}
 			}
 			data, err := EncodeCreateChannelRuntimeMetaBatchCommandChecked(items)
@@ -309,6 +428,9 @@ func verifC13CmdGen() *rapid.Generator[verifC13Cmd] {
 			c.data, c.conditional = data, true
 		case "addSubscribers", "removeSubscribers":
 			uids := rapid.SliceOfN(rapid.SampledFrom(verifC13Users), 0, 4).Draw(t, "uids")
+			if key.uid != "" {
+				uids = append(uids, key.uid)
+			}
 			var version []uint64
 			if v := rapid.IntRange(0, 4).Draw(t, "mutationVersion"); v > 0 {
 				version = []uint64{uint64(v)}
@@ -324,6 +446,9 @@ func verifC13CmdGen() *rapid.Generator[verifC13Cmd] {
 			ms := make([]metadb.UserChannelMembership, n)
 			for i := range ms {
 				ms[i] = verifC13Membership(t)
+				if i == 0 && key.channel != "" {
+					ms[i].UID, ms[i].ChannelID, ms[i].ChannelType = key.uid, key.channel, key.typ
+				}
 			}
 			switch c.class {
 			case "upsertMemberships":
@@ -342,6 +467,9 @@ func verifC13CmdGen() *rapid.Generator[verifC13Cmd] {
 			ms := make([]metadb.UserCMDChannelMembership, n)
 			for i := range ms {
 				ms[i] = verifC13CMDMembership(t)
+				if i == 0 && key.channel != "" {
+					ms[i].UID, ms[i].CommandChannelID, ms[i].ChannelType = key.uid, key.channel+"____cmd", key.typ
+				}
 			}
 			switch c.class {
 			case "upsertCMDMemberships":
@@ -370,11 +498,15 @@ func verifC13CmdGen() *rapid.Generator[verifC13Cmd] {
 			}
 			c.data, c.conditional = EncodeAppendMessageEventsCommand(events), true
 		case "bindPlugin":
-			c.data = EncodeBindPluginUserCommand(metadb.PluginUserBinding{UID: verifC13Pick(t, "uid", verifC13Users), PluginNo: "p" + fmt.Sprint(rapid.IntRange(0, 1).Draw(t, "plugin")), CreatedAtMS: int64(rapid.IntRange(1, 5).Draw(t, "createdAt")), UpdatedAtMS: int64(rapid.IntRange(1, 9).Draw(t, "updatedAt"))})
+			c.data = EncodeBindPluginUserCommand(metadb.PluginUserBinding{UID: pickUID(), PluginNo: "p" + fmt.Sprint(rapid.IntRange(0, 1).Draw(t, "plugin")), CreatedAtMS: int64(rapid.IntRange(1, 5).Draw(t, "createdAt")), UpdatedAtMS: int64(rapid.IntRange(1, 9).Draw(t, "updatedAt"))})
 		case "unbindPlugin":
-			c.data = EncodeUnbindPluginUserCommand(verifC13Pick(t, "uid", verifC13Users), "p"+fmt.Sprint(rapid.IntRange(0, 1).Draw(t, "plugin")))
+			c.data = EncodeUnbindPluginUserCommand(pickUID(), "p"+fmt.Sprint(rapid.IntRange(0, 1).Draw(t, "plugin")))
 		case "createMigrationTask":
-			task := metadb.ChannelMigrationTask{TaskID: verifC13Pick(t, "task", verifC13Tasks), Kind: metadb.ChannelMigrationKind(rapid.IntRange(1, 3).Draw(t, "kind")),
+			taskID := key.task
+			if taskID == "" || rapid.IntRange(0, 2).Draw(t, "otherTask") == 0 {
+				taskID = verifC13Pick(t, "task", verifC13Tasks)
+			}
+			task := metadb.ChannelMigrationTask{TaskID: taskID, Kind: metadb.ChannelMigrationKind(rapid.IntRange(1, 3).Draw(t, "kind")),
 				Status: metadb.ChannelMigrationStatusPending, Phase: metadb.ChannelMigrationPhaseValidate, ChannelID: channel, ChannelType: typ,
 				SourceNode: 1, TargetNode: uint64(rapid.IntRange(2, 3).Draw(t, "target")), BaseChannelEpoch: uint64(rapid.IntRange(1, 3).Draw(t, "baseEpoch")), BaseLeaderEpoch: uint64(rapid.IntRange(1, 3).Draw(t, "baseLeaderEpoch")),
 				CreatedAtMS: int64(rapid.IntRange(1, 2).Draw(t, "createdAt")), UpdatedAtMS: int64(rapid.IntRange(1, 2).Draw(t, "updatedAt"))}
@@ -384,20 +516,20 @@ func verifC13CmdGen() *rapid.Generator[verifC13Cmd] {
 			c.data, c.conditional = EncodeCreateChannelMigrationTaskCommand(task), true
 		case "claimMigrationTask":
 			now := int64(rapid.IntRange(1, 50).Draw(t, "now"))
-			c.data, c.conditional = EncodeClaimChannelMigrationTaskCommand(metadb.ChannelMigrationTaskClaim{Guard: verifC13TaskGuard(t), Status: metadb.ChannelMigrationStatusRunning,
+			c.data, c.conditional = EncodeClaimChannelMigrationTaskCommand(metadb.ChannelMigrationTaskClaim{Guard: verifC13TaskGuard(t, key), Status: metadb.ChannelMigrationStatusRunning,
 				Phase: metadb.ChannelMigrationPhase(rapid.IntRange(1, 2).Draw(t, "phase")), OwnerNodeID: 1, OwnerLeaseUntilMS: now + 100, NowMS: now, UpdatedAtMS: int64(rapid.IntRange(1, 2).Draw(t, "updatedAt"))}), true
 		case "advanceMigrationTask":
-			c.data, c.conditional = EncodeAdvanceChannelMigrationTaskCommand(metadb.ChannelMigrationTaskAdvance{Guard: verifC13TaskGuard(t), Status: metadb.ChannelMigrationStatus(rapid.IntRange(2, 3).Draw(t, "status")),
+			c.data, c.conditional = EncodeAdvanceChannelMigrationTaskCommand(metadb.ChannelMigrationTaskAdvance{Guard: verifC13TaskGuard(t, key), Status: metadb.ChannelMigrationStatus(rapid.IntRange(2, 3).Draw(t, "status")),
 				Phase: metadb.ChannelMigrationPhase(rapid.IntRange(1, 2).Draw(t, "phase")), Attempt: uint32(rapid.IntRange(0, 2).Draw(t, "attempt")), UpdatedAtMS: int64(rapid.IntRange(1, 2).Draw(t, "updatedAt"))}), true
 		case "abortMigration":
-			c.data, c.conditional = EncodeAbortChannelMigrationCommand(metadb.ChannelMigrationAbortRequest{Guard: verifC13TaskGuard(t),
+			c.data, c.conditional = EncodeAbortChannelMigrationCommand(metadb.ChannelMigrationAbortRequest{Guard: verifC13TaskGuard(t, key),
 				RuntimeGuard: metadb.ChannelMigrationRuntimeGuard{ChannelID: channel, ChannelType: typ, ExpectedChannelEpoch: uint64(rapid.IntRange(1, 3).Draw(t, "epoch")), ExpectedLeaderEpoch: uint64(rapid.IntRange(1, 3).Draw(t, "leaderEpoch")), ExpectedLeader: uint64(rapid.IntRange(0, 3).Draw(t, "leader"))},
-				Status: metadb.ChannelMigrationStatusAborted, Phase: metadb.ChannelMigrationPhase(rapid.IntRange(1, 2).Draw(t, "phase")), UpdatedAtMS: 3, CompletedAtMS: 3, LastError: "aborted"}), true
+				Status:       metadb.ChannelMigrationStatusAborted, Phase: metadb.ChannelMigrationPhase(rapid.IntRange(1, 2).Draw(t, "phase")), UpdatedAtMS: 3, CompletedAtMS: 3, LastError: "aborted"}), true
 		case "gcMigrationTasks":
 			c.data, c.conditional = EncodeGarbageCollectTerminalChannelMigrationTasksCommand(metadb.ChannelMigrationTaskGCRequest{BeforeMS: int64(rapid.IntRange(1, 9).Draw(t, "before")), Limit: rapid.IntRange(1, 3).Draw(t, "limit")}), true
 		}
 		return c
-	})
+	}
 }
 
 func verifC13Command(c verifC13Cmd, index uint64) multiraft.Command {
@@ -430,14 +562,79 @@ func verifC13Partition(t *rapid.T, label string, n int) [][2]int {
 	return out
 }
 
+// verifC13AvoidKnown cuts batches so that no batch contains a DeleteChannel
+// followed by a subscriber mutation of the same row (only while that finding is
+// listed as known). It returns the adjusted partition and the number of forced cuts.
+func verifC13AvoidKnown(log []verifC13Cmd, from int, parts [][2]int) ([][2]int, int) {
+	avoidDelete := kit.HasKnownFinding("C13", verifC13SigDeleteSubscribe)
+	avoidGC := kit.HasKnownFinding("C13", verifC13SigGCInBatch)
+	if !avoidDelete && !avoidGC {
+		return parts, 0
+	}
+	var out [][2]int
+	cuts := 0
+	for _, p := range parts {
+		lo := p[0]
+		deleted := map[string]bool{}
+		hasGC, hasTask := map[uint16]bool{}, map[uint16]bool{}
+		for i := p[0]; i < p[1]; i++ {
+			c := log[from+i]
+			isGC := c.class == "gcMigrationTasks"
+			isTask := c.class == "createMigrationTask" || c.class == "claimMigrationTask" || c.class == "advanceMigrationTask" || c.class == "abortMigration"
+			cut := false
+			if avoidDelete && c.class != "deleteChannel" && c.rowKey != "" && deleted[c.rowKey] {
+				cut = true
+			}
+			if avoidGC && ((isGC && (hasTask[c.hashSlot] || hasGC[c.hashSlot])) || (isTask && hasGC[c.hashSlot])) {
+				cut = true
+			}
+			if cut {
+				out = append(out, [2]int{lo, i})
+				lo, deleted, hasGC, hasTask = i, map[string]bool{}, map[uint16]bool{}, map[uint16]bool{}
+				cuts++
+			}
+			if c.class == "deleteChannel" {
+				deleted[c.rowKey] = true
+			}
+			hasGC[c.hashSlot] = hasGC[c.hashSlot] || isGC
+			hasTask[c.hashSlot] = hasTask[c.hashSlot] || isTask
+		}
+		out = append(out, [2]int{lo, p[1]})
+	}
+	return out, cuts
+}
+
 type verifC13Stats struct {
-	stale, multiBatchConditional, multiBatchWithStale, batches, restarts int
+	stale, multiBatchConditional, multiBatchWithStale, batches, restarts, replayedTails, knownCuts int
 }
 
 // verifC13ApplyPartition applies log[from:] (indexes from+1..) to r in the given
 // batches, optionally restarting the replica at batch boundaries, and checks
 // every per-command result against want.
-func verifC13ApplyPartition(rt *rapid.T, name string, r *verifC13Replica, log []verifC13Cmd, want [][]byte, from int, parts [][2]int, restartAt map[int]bool, st *verifC13Stats) {
+func verifC13ApplyPartition(rt *rapid.T, name string, r *verifC13Replica, log []verifC13Cmd, want [][]byte, durableRef []uint64, from int, parts [][2]int, restartAt map[int]bool, st *verifC13Stats) {
+	// The durable applied index is the index of the last command whose write batch
+	// committed. A command refused as stale at commit time is a no-op and does not
+	// move it (multiraft then persists MarkApplied separately), and whether a stale
+	// command is refused while staging (batch still commits) or at commit time
+	// depends on the batch it is in. So the replica-independent invariant is: the
+	// index is never ahead of the applied commands, never behind the restore point,
+	// and everything above it is a stale no-op (safe to apply again after a restart).
+	checkDurable := func(what string, got uint64, hi int) {
+		if got > uint64(hi) || got < uint64(from) {
+			rt.Fatalf("%s: DurableAppliedIndex = %d outside [%d,%d]", what, got, from, hi)
+		}
+		for i := int(got); i < hi; i++ {
+			if string(want[i]) != ApplyResultStaleMeta {
+				rt.Fatalf("%s: DurableAppliedIndex = %d after applying through %d, but command %d (%s -> %q) above it is not a stale no-op", what, got, hi, i+1, log[i].class, want[i])
+			}
+		}
+	}
+	_ = durableRef
+	parts, cuts := verifC13AvoidKnown(log, from, parts)
+	st.knownCuts += cuts
+	if cuts > 0 {
+		restartAt = nil // batch numbering changed
+	}
 	for bi, p := range parts {
 		lo, hi := from+p[0], from+p[1]
 		cmds := make([]multiraft.Command, 0, hi-lo)
@@ -460,9 +657,7 @@ func verifC13ApplyPartition(rt *rapid.T, name string, r *verifC13Replica, log []
 					name, i, log[i].class, log[i].hashSlot, lo, hi, verifC13Classes2(log[lo:hi]), results[i-lo], want[i])
 			}
 		}
-		if got := r.applied(rt); got != uint64(hi) {
-			rt.Fatalf("%s: DurableAppliedIndex = %d after applying through index %d", name, got, hi)
-		}
+		checkDurable(fmt.Sprintf("%s after log[%d:%d] (%s)", name, lo, hi, verifC13Classes2(log[lo:hi])), r.applied(rt), hi)
 		st.batches++
 		if hi-lo > 1 && conditional {
 			st.multiBatchConditional++
@@ -471,11 +666,32 @@ func verifC13ApplyPartition(rt *rapid.T, name string, r *verifC13Replica, log []
 			st.multiBatchWithStale++
 		}
 		if restartAt[bi] {
+			before := r.applied(rt)
 			r.reopen(rt)
-			if got := r.applied(rt); got != uint64(hi) {
-				rt.Fatalf("%s: DurableAppliedIndex = %d after restart, want %d", name, got, hi)
+			durable := r.applied(rt)
+			if durable != before {
+				rt.Fatalf("%s: DurableAppliedIndex = %d before and %d after a restart", name, before, durable)
 			}
+			checkDurable(name+" after restart", durable, hi)
 			st.restarts++
+			if int(durable) < hi && rapid.Bool().Draw(rt, "replayUncommittedTail") {
+				// crash before multiraft's separate MarkApplied: the commands above the
+				// durable index are applied again; they were stale no-ops and must be again
+				tail := make([]multiraft.Command, 0, hi-int(durable))
+				for i := int(durable); i < hi; i++ {
+					tail = append(tail, verifC13Command(log[i], uint64(i+1)))
+				}
+				results, err := r.sm.ApplyBatch(context.Background(), tail)
+				if err != nil {
+					rt.Fatalf("%s: replay of log[%d:%d] after restart failed: %v", name, durable, hi, err)
+				}
+				for i := range tail {
+					if !bytes.Equal(results[i], want[int(durable)+i]) {
+						rt.Fatalf("%s: replayed command %d (%s) returned %q, first application returned %q", name, int(durable)+i, log[int(durable)+i].class, results[i], want[int(durable)+i])
+					}
+				}
+				st.replayedTails++
+			}
 		}
 	}
 }
@@ -495,7 +711,7 @@ func verifC13Classes2(cmds []verifC13Cmd) string {
 // byte-identical metadata and the same durable applied index.
 func TestVerifC13BatchTransparency(t *testing.T) {
 	kit.Check(t, "C13", func(rt *rapid.T, k *kit.Case) {
-		raw := rapid.SliceOfN(verifC13CmdGen(), 10, kit.Scale("C13_MAXLOG", 40, 80)).Draw(rt, "log")
+		raw := verifC13LogGen(8, kit.Scale("C13_MAXLOG", 40, 80)).Draw(rt, "log")
 		base, cleanup := kit.TempDir()
 		defer cleanup()
 		var open []*verifC13Replica
@@ -518,6 +734,7 @@ func TestVerifC13BatchTransparency(t *testing.T) {
 		ref := newReplica("ref")
 		var log []verifC13Cmd
 		var want [][]byte
+		durableRef := []uint64{0}  // durableRef[i] = durable applied index after i accepted commands
 		snapAt := map[int][]byte{} // prefix length -> snapshot bytes
 		snapTargets := map[int]bool{}
 		for i, n := 0, rapid.IntRange(1, kit.Scale("C13_SNAPS", 2, 6)).Draw(rt, "snapshotPrefixes"); i < n; i++ {
@@ -534,6 +751,11 @@ func TestVerifC13BatchTransparency(t *testing.T) {
 			}
 			log = append(log, c)
 			want = append(want, res)
+			durable := ref.applied(rt)
+			if durable != uint64(len(log)) && (durable != durableRef[len(durableRef)-1] || string(res) != ApplyResultStaleMeta) {
+				rt.Fatalf("after command %d (%s -> %q) DurableAppliedIndex = %d (was %d): neither the command index nor an unmoved index below a stale no-op", len(log), c.class, res, durable, durableRef[len(durableRef)-1])
+			}
+			durableRef = append(durableRef, durable)
 			if snapTargets[len(log)] {
 				snapAt[len(log)] = ref.snapshot(rt)
 			}
@@ -545,9 +767,6 @@ func TestVerifC13BatchTransparency(t *testing.T) {
 		final := ref.snapshot(rt)
 		if again := ref.snapshot(rt); !bytes.Equal(final, again) {
 			rt.Fatalf("two snapshots of the same state differ: %s", verifC13Diff(final, again))
-		}
-		if got := ref.applied(rt); got != uint64(len(log)) {
-			rt.Fatalf("reference DurableAppliedIndex = %d, want %d", got, len(log))
 		}
 		var st verifC13Stats
 		for _, w := range want {
@@ -566,7 +785,7 @@ func TestVerifC13BatchTransparency(t *testing.T) {
 				}
 			}
 			r := newReplica(name)
-			verifC13ApplyPartition(rt, name, r, log, want, 0, parts, restartAt, &st)
+			verifC13ApplyPartition(rt, name, r, log, want, durableRef, 0, parts, restartAt, &st)
 			if d := verifC13Diff(final, r.snapshot(rt)); d != "" {
 				rt.Fatalf("%s (%d batches %v) ends in different metadata than one-at-a-time application: %s", name, len(parts), parts, d)
 			}
@@ -574,6 +793,7 @@ func TestVerifC13BatchTransparency(t *testing.T) {
 		}
 
 		// (d) snapshot at a prefix, restore into a fresh replica, apply the rest
+		dirtyRestores := 0
 		prefixes := make([]int, 0, len(snapAt))
 		for p := range snapAt {
 			prefixes = append(prefixes, p)
@@ -581,6 +801,17 @@ func TestVerifC13BatchTransparency(t *testing.T) {
 		sort.Ints(prefixes)
 		for _, p := range prefixes {
 			r := newReplica(fmt.Sprintf("restore%d", p))
+			if rapid.Bool().Draw(rt, "restoreOverExistingState") {
+				// a lagging / diverged follower: the snapshot must replace whatever is there
+				junk := verifC13LogGen(1, 10).Draw(rt, "existingState")
+				idx := uint64(0)
+				for _, c := range junk {
+					if _, err := r.sm.Apply(context.Background(), verifC13Command(c, idx+1)); err == nil {
+						idx++
+					}
+				}
+				dirtyRestores++
+			}
 			if err := r.sm.Restore(context.Background(), multiraft.Snapshot{Index: uint64(p), Term: 1, Data: snapAt[p]}); err != nil {
 				rt.Fatalf("Restore(snapshot at prefix %d): %v", p, err)
 			}
@@ -594,7 +825,7 @@ func TestVerifC13BatchTransparency(t *testing.T) {
 				r.reopen(rt)
 			}
 			parts := verifC13Partition(rt, "afterRestore", len(log)-p)
-			verifC13ApplyPartition(rt, fmt.Sprintf("restore@%d", p), r, log, want, p, parts, nil, &st)
+			verifC13ApplyPartition(rt, fmt.Sprintf("restore@%d", p), r, log, want, durableRef, p, parts, nil, &st)
 			if d := verifC13Diff(final, r.snapshot(rt)); d != "" {
 				rt.Fatalf("restore at prefix %d then applying log[%d:] ends in different metadata: %s", p, p, d)
 			}
@@ -608,11 +839,22 @@ func TestVerifC13BatchTransparency(t *testing.T) {
 		}
 		k.Key(len(log), verifC13LogKey(log))
 		k.SetNonTrivial(st.stale > 0 && st.multiBatchConditional > 0)
+		motifs := 0
+		for _, c := range log {
+			if c.motif {
+				motifs++
+			}
+		}
+		k.LabelIf(motifs > 0, "log has same-row motif commands")
+		k.LabelIf(st.knownCuts > 0, "batch cut forced by a listed known finding")
+		verifC13Excluded.Add(int64(st.knownCuts))
 		k.LabelIf(st.stale > 0, "log has a stale-meta result")
 		k.LabelIf(st.multiBatchConditional > 0, "multi-command batch with a conditional mutation")
 		k.LabelIf(st.multiBatchWithStale > 0, "multi-command batch containing a stale command (split-and-replay path)")
 		k.LabelIf(st.restarts > 0, "restart between batches")
+		k.LabelIf(st.replayedTails > 0, "uncommitted stale tail replayed after restart")
 		k.LabelIf(len(prefixes) > 0, "snapshot/restore at a prefix")
+		k.LabelIf(dirtyRestores > 0, "snapshot restored over existing state")
 		k.LabelIf(refused > 0, "generator produced a refused command (dropped)")
 		k.LabelIf(len(classes) >= 12, ">=12 command classes in the log")
 		for _, w := range want {
@@ -625,6 +867,114 @@ func TestVerifC13BatchTransparency(t *testing.T) {
 			return fmt.Sprintf("log=%d cmds (%d classes, %d refused dropped) stale=%d batches=%d multiCond=%d multiStale=%d restarts=%d snapshotPrefixes=%v", len(log), len(classes), refused, st.stale, st.batches, st.multiBatchConditional, st.multiBatchWithStale, st.restarts, prefixes)
 		})
 	})
+	kit.For(t, "C13").AddExtra("excluded_by_known_finding", verifC13Excluded.Swap(0))
+}
+
+var verifC13Excluded atomic.Int64
+
+// TestVerifC13KnownDeleteThenSubscribe re-establishes, deterministically on every
+// run, the recorded finding: DeleteChannel followed by a subscriber mutation of
+// the same channel inside ONE apply batch sees the pre-batch subscriber rows. A
+// listed signature prints KNOWN-FINDING and does not fail; if the behaviour is
+// repaired the probe reports that instead.
+func TestVerifC13KnownDeleteThenSubscribe(t *testing.T) {
+	col := kit.For(t, "C13")
+	base, cleanup := kit.TempDir()
+	defer cleanup()
+	setup := EncodeAddSubscribersCommand("c0", 2, []string{"u0"})
+	del := EncodeDeleteChannelCommand("c0", 2)
+	add := EncodeAddSubscribersCommand("c0", 2, []string{"u0"}, 1)
+	cmd := func(data []byte, index uint64) multiraft.Command {
+		return multiraft.Command{SlotID: multiraft.SlotID(verifC13Slot), HashSlot: 3, Index: index, Term: 1, Data: data}
+	}
+	single := verifC13Open(t, filepath.Join(base, "single"))
+	defer single.close(t)
+	batched := verifC13Open(t, filepath.Join(base, "batched"))
+	defer batched.close(t)
+	ctx := context.Background()
+	var singleResult, batchResult []byte
+	for _, r := range []*verifC13Replica{single, batched} {
+		if _, err := r.sm.Apply(ctx, cmd(setup, 1)); err != nil {
+			t.Fatalf("setup: %v", err)
+		}
+	}
+	if _, err := single.sm.Apply(ctx, cmd(del, 2)); err != nil {
+		t.Fatalf("delete: %v", err)
+	}
+	res, err := single.sm.Apply(ctx, cmd(add, 3))
+	if err != nil {
+		t.Fatalf("add: %v", err)
+	}
+	singleResult = res
+	results, err := batched.sm.ApplyBatch(ctx, []multiraft.Command{cmd(del, 2), cmd(add, 3)})
+	if err != nil {
+		t.Fatalf("batch: %v", err)
+	}
+	batchResult = results[1]
+	diff := verifC13Diff(single.snapshot(t), batched.snapshot(t))
+	kc := col.NewCase()
+	kc.Key("known", verifC13SigDeleteSubscribe)
+	kc.NonTrivial()
+	if bytes.Equal(singleResult, batchResult) && diff == "" {
+		kc.Label("delete-then-subscribe probe: batch transparent (finding not present)")
+		col.Commit(kc)
+		return
+	}
+	what := fmt.Sprintf("[DeleteChannel(c0,2), AddSubscribers(c0,2,{u0},v1)] after AddSubscribers(c0,2,{u0}): one at a time -> %q, in one ApplyBatch -> %q; metadata: %s", singleResult, batchResult, diff)
+	if kit.KnownFinding("C13", verifC13SigDeleteSubscribe) {
+		kc.Label("known finding re-established: " + verifC13SigDeleteSubscribe)
+		col.Commit(kc)
+		return
+	}
+	t.Errorf("VERIF-VIOLATION C13 batch transparency [%s]: %s", verifC13SigDeleteSubscribe, what)
+}
+
+// TestVerifC13KnownGCInBatch re-establishes the second recorded finding: a
+// GarbageCollectMigrationTasks command in the same apply batch as the command
+// that made a task terminal does not see that task.
+func TestVerifC13KnownGCInBatch(t *testing.T) {
+	col := kit.For(t, "C13")
+	base, cleanup := kit.TempDir()
+	defer cleanup()
+	create := EncodeCreateChannelMigrationTaskCommand(metadb.ChannelMigrationTask{TaskID: "t0", Kind: metadb.ChannelMigrationKindLeaderTransfer,
+		Status: metadb.ChannelMigrationStatusCompleted, Phase: metadb.ChannelMigrationPhaseValidate, ChannelID: "c0", ChannelType: 2, SourceNode: 1, TargetNode: 2,
+		BaseChannelEpoch: 1, BaseLeaderEpoch: 1, CreatedAtMS: 1, UpdatedAtMS: 1, CompletedAtMS: 5})
+	gc := EncodeGarbageCollectTerminalChannelMigrationTasksCommand(metadb.ChannelMigrationTaskGCRequest{BeforeMS: 9, Limit: 3})
+	cmd := func(data []byte, index uint64) multiraft.Command {
+		return multiraft.Command{SlotID: multiraft.SlotID(verifC13Slot), HashSlot: 3, Index: index, Term: 1, Data: data}
+	}
+	single := verifC13Open(t, filepath.Join(base, "single"))
+	defer single.close(t)
+	batched := verifC13Open(t, filepath.Join(base, "batched"))
+	defer batched.close(t)
+	ctx := context.Background()
+	if _, err := single.sm.Apply(ctx, cmd(create, 1)); err != nil {
+		t.Fatalf("create: %v", err)
+	}
+	singleResult, err := single.sm.Apply(ctx, cmd(gc, 2))
+	if err != nil {
+		t.Fatalf("gc: %v", err)
+	}
+	results, err := batched.sm.ApplyBatch(ctx, []multiraft.Command{cmd(create, 1), cmd(gc, 2)})
+	if err != nil {
+		t.Fatalf("batch: %v", err)
+	}
+	diff := verifC13Diff(single.snapshot(t), batched.snapshot(t))
+	kc := col.NewCase()
+	kc.Key("known", verifC13SigGCInBatch)
+	kc.NonTrivial()
+	if bytes.Equal(singleResult, results[1]) && diff == "" {
+		kc.Label("gc-in-batch probe: batch transparent (finding not present)")
+		col.Commit(kc)
+		return
+	}
+	what := fmt.Sprintf("[CreateChannelMigrationTask(completed at 5), GarbageCollectMigrationTasks(before 9)]: one at a time -> %q, in one ApplyBatch -> %q; metadata: %s", singleResult, results[1], diff)
+	if kit.KnownFinding("C13", verifC13SigGCInBatch) {
+		kc.Label("known finding re-established: " + verifC13SigGCInBatch)
+		col.Commit(kc)
+		return
+	}
+	t.Errorf("VERIF-VIOLATION C13 batch transparency [%s]: %s", verifC13SigGCInBatch, what)
 }
 
 func verifC13LogKey(log []verifC13Cmd) []byte {
@@ -671,7 +1021,7 @@ func verifC13Malformed(t *rapid.T, valid []byte) ([]byte, string) {
 // inside a batch of otherwise valid commands.
 func TestVerifC13Refusal(t *testing.T) {
 	kit.Check(t, "C13", func(rt *rapid.T, k *kit.Case) {
-		prefix := rapid.SliceOfN(verifC13CmdGen(), 0, 12).Draw(rt, "prefix")
+		prefix := verifC13LogGen(0, 12).Draw(rt, "prefix")
 		base, cleanup := kit.TempDir()
 		defer cleanup()
 		r := verifC13Open(rt, filepath.Join(base, "r"))
